@@ -27,13 +27,22 @@ Definition is_always (i : interest) := match i with IAlways => true | _ => false
 Definition is_sometimes (i : interest) := match i with ISometimes => true | _ => false end.
 
 (** * Filters (the [Filter] trait objects a [Filtered] may carry)
-    [FDyn p]: a [DynFilterFn]; the closure looks at the metadata and at [cx.lookup_current()], reported
-    as the callsite id of that span.  [FAll] is [Option::<F>::None]. *)
+    A context-dependent filter is given the metadata of the entered spans *its own Context shows it* (innermost
+    first): [FDyn p] is a [DynFilterFn] (its closure looks at [cx.lookup_current()], the head of that list);
+    [FEnv st dflt dy] is an [EnvFilter] with static directives `target=level` ([st], default [dflt]) and span
+    directives `target[s]=level` ([dy]).  The EnvFilter is stateful in the code — [callsite_enabled] registers the
+    span callsites a span directive matches ([by_cs]), [on_new_span] / [on_enter] / [on_exit], which [Filtered]
+    forwards for the spans this filter's layer accepted, maintain the per-thread scope of directive levels — and
+    that state is, as long as every operand of a combinator is told about every callsite (Gen_stack:
+    [or_asks_both], [and_skips_only_after_never]; property C07 needs exactly that) and spans exit in LIFO order, a
+    function of the entered spans the layer accepted: that function is what the model uses.
+    [FAll] is [Option::<F>::None]. *)
 Inductive filt :=
 | FLevel (l : N)
 | FTargets (tbl : list (N * N)) (dflt : option N)
 | FFn (p : meta -> bool)
-| FDyn (p : meta -> option N -> bool)
+| FDyn (p : meta -> list meta -> bool)
+| FEnv (st : list (N * N)) (dflt : option N) (dy : list (N * N))
 | FAll
 | FAnd (a b : filt)
 | FOr (a b : filt)
@@ -42,7 +51,24 @@ Inductive filt :=
 Fixpoint assoc {A} (k : N) (l : list (N * A)) : option A :=
   match l with [] => None | (k', v) :: r => if k =? k' then Some v else assoc k r end.
 
-Fixpoint f_enabled (f : filt) (m : meta) (cur : option N) : bool :=
+Definition is_span (m : meta) : bool := match m_kind m with KSpan => true | _ => false end.
+Definition dyn_max (dy : list (N * N)) : N := fold_right (fun e a => N.max (snd e) a) 0 dy.      (* dynamics.max_level *)
+Definition dyn_matches (dy : list (N * N)) (m : meta) : bool := existsb (fun e => fst e =? m_target m) dy.
+Definition env_static (st : list (N * N)) (dflt : option N) (m : meta) : bool :=
+  match assoc (m_target m) st with
+  | Some l => m_level m <=? l
+  | None => match dflt with Some l => m_level m <=? l | None => false end
+  end.
+
+(** EnvFilter::enabled: the span directives first (only if one of them can enable this level at all): a span whose
+    callsite they match, or anything up to the level of a directive whose span is entered; then the static ones *)
+Definition env_enabled (st : list (N * N)) (dflt : option N) (dy : list (N * N)) (m : meta) (cur : list meta) : bool :=
+  ((m_level m <=? dyn_max dy) &&
+   ((is_span m && dyn_matches dy m) ||
+    existsb (fun s => existsb (fun e => (fst e =? m_target s) && (m_level m <=? snd e)) dy) cur)) ||
+  env_static st dflt m.
+
+Fixpoint f_enabled (f : filt) (m : meta) (cur : list meta) : bool :=
   match f with
   | FLevel l => m_level m <=? l
   | FTargets tbl d =>
@@ -52,6 +78,7 @@ Fixpoint f_enabled (f : filt) (m : meta) (cur : option N) : bool :=
       end
   | FFn p => p m
   | FDyn p => p m cur
+  | FEnv st d dy => env_enabled st d dy m cur
   | FAll => true
   | FAnd a b => f_enabled a m cur && f_enabled b m cur
   | FOr a b => f_enabled a m cur || f_enabled b m cur
@@ -62,8 +89,11 @@ Fixpoint f_enabled (f : filt) (m : meta) (cur : option N) : bool :=
     DynFilterFn (no hint, no callsite filter) answers sometimes; combinators as in combinator.rs. *)
 Fixpoint f_interest (f : filt) (m : meta) : interest :=
   match f with
-  | FLevel _ | FTargets _ _ | FFn _ => if f_enabled f m None then IAlways else INever
+  | FLevel _ | FTargets _ _ | FFn _ => if f_enabled f m [] then IAlways else INever
   | FDyn _ => ISometimes
+  | FEnv st d dy =>           (* EnvFilter::register_callsite; base_interest = sometimes iff there are span directives *)
+      if (is_span m && dyn_matches dy m) || env_static st d m then IAlways
+      else match dy with [] => INever | _ => ISometimes end
   | FAll => IAlways
   | FAnd a b =>
       let ia := f_interest a m in
@@ -212,11 +242,15 @@ Definition lookup_current (st : state) (mask : N) : option N :=       (* Context
   | None => None
   | Some id => if visible st mask id then Some id else find (visible st mask) (stack_iter st)
   end.
-(** what a DynFilterFn closure of the model looks at: the callsite of [cx.lookup_current()] *)
-Definition cur_cs (st : state) (mask : N) : option N :=
-  match lookup_current st mask with
-  | Some id => match sp_get st id with Some d => Some (m_cs (sd_meta d)) | None => None end
-  | None => None
+(** what a context-dependent filter sees through its own Context: the metadata of the entered spans its FilterIds
+    did not disable, innermost first (the head is [cx.lookup_current()]) *)
+Definition cur_cs (st : state) (mask : N) : list meta :=
+  match current st with
+  | None => []
+  | Some _ =>
+      flat_map (fun id => match sp_get st id with
+                          | Some d => if fm_enabled (sd_fmap d) mask then [sd_meta d] else []
+                          | None => [] end) (stack_iter st)
   end.
 Fixpoint scope_from (fuel : nat) (st : state) (mask : N) (next : option N) : list N :=   (* Scope::next *)
   match fuel with
